@@ -6,8 +6,20 @@ RUNS = {'quick': 1500, 'thorough': 40000}
 WALL = {'quick': 120, 'thorough': 1500}
 REAL = ["mystic solvers, tools.wrap_*, constraints.and_/boundsconstrain, symbolic bounds (sympy), termination, monitors"]
 STUB = ["cost, constraints, penalty, callback (scripted peers)", "clocks", "signal/tty", "file open() proxy"]
-valid = solverplan.valid_solver_plan
-simplify = solverplan.simplify_solver_plan
+def valid(plan):
+    return plan.get('kind') == 'ensemble' or solverplan.valid_solver_plan(plan)
+def simplify(plan):
+    if plan.get('kind') == 'ensemble':
+        for key in ('constraint', 'penalty', 'termination', 'bounds'):
+            if plan.get(key):
+                p = dict(plan); p[key] = None
+                yield p
+        if len(plan['modes']) > 1:
+            for m in plan['modes']:
+                p = dict(plan); p['modes'] = [m]
+                yield p
+        return
+    for p in solverplan.simplify_solver_plan(plan): yield p
 
 RULE = ("seeded op sequences over NM/Powell/DE/DE2 with scripted cost models (plateaus, ties, inf bands, vector-valued + reducer), "
         "boxes, idempotent constraints (pure/in-place/aliasing), penalties, DE strategies; oracle evaluated at every iteration "
@@ -23,7 +35,80 @@ KNOBS = dict(p_bounds=0.45, p_constraint=0.35, p_penalty=0.4, p_vector=0.15, max
 ORACLES = [oracles.EvaluatedOptimum]
 
 def gen_plan(seed, tier):
+    from ..env import sub_rng
+    r = sub_rng(seed, 'plan.c01.kind')
+    if r.random() < 0.15:
+        # the property names ensembles too: Lattice / Buckshot over NM, Powell or DE members, stepped and solved
+        from .. import ensembles
+        plan = ensembles.gen_ensemble_plan(r, seed, tier, ID)
+        plan['kind'] = 'ensemble'
+        plan['nested'] = r.choice(['NM', 'Powell', 'DE', 'DE'])
+        if plan['nested'] == 'DE': plan['nested_np'] = r.choice([5, 6, 8])
+        plan['limits'] = [min(plan['limits'][0], 12), plan['limits'][1]]
+        plan['map'] = r.choice([None, None, {'mode': 'serial'}, {'mode': 'shuffled'}])
+        plan['modes'] = r.sample(['steps', 'steps', 'solve_step', 'solve'], 2)
+        plan['ops'] = []
+        return plan
     return solverplan.gen_solver_plan(seed, tier, ID, KNOBS)
 
 def run_plan(plan):
+    if plan.get('kind') == 'ensemble': return run_ensemble(plan)
     return solverplan.run_solver_plan(plan, ORACLES)
+
+def run_ensemble(plan):
+    """the reported (bestSolution, bestEnergy) of an ensemble, after every ensemble step and at the end, is a point its cost was
+    called at, with the energy cost (+ penalty) had there"""
+    import hashlib, random as _random, numpy
+    from .. import env, engine, ensembles, observe, fs as simfs
+    from ..observe import canon, feq
+    from ..oracles import reduce_energy, finite
+    run = env.Run(plan['seed'], budget=600000)
+    env.begin(run)
+    run.fs = simfs.SimFS(run); run.fs.plant()
+    V = []
+    pen = plan.get('penalty')
+    def check(snap, upto, when, mode):
+        be = snap['bestEnergy']; bs = snap['bestSolution']
+        if not (isinstance(be, float) and finite(be)): return
+        run.probe('c01.best_checked'); run.probe('c01.ensemble_best_checked')
+        hits = [e for e in run.evals[:upto] if feq(tuple(e.x), tuple(bs))]
+        tags = {'ensemble': plan['ensemble'], 'nested': plan['nested'], 'mode': mode, 'penalty': bool(pen)}
+        if not hits:
+            V.append(engine.Violation(ID, 'best_not_evaluated', plan['ensemble'], tags, '%s: ensemble bestSolution %r (energy %r) was never '
+                     'passed to the cost function' % (when, bs, be)))
+            return False
+        want = [canon(reduce_energy(e.y, env.pen_apply(pen, e.x) if pen else 0.0, None)) for e in hits]
+        if not any(feq(w, be) for w in want):
+            V.append(engine.Violation(ID, 'best_energy_mismatch', plan['ensemble'], tags, '%s: ensemble bestEnergy=%r but cost+penalty at '
+                     'bestSolution %r is %r' % (when, be, bs, want[:3])))
+            return False
+        return True
+    steps = 0
+    try:
+        with engine.patched_world(run):
+            for mode in plan['modes']:
+                _random.seed(plan['lib_seed']); numpy.random.seed(plan['lib_seed'] % (2 ** 32))
+                s, peers = ensembles.build_ensemble(plan, run, plan.get('map'))
+                snaps = [] if mode == 'steps' else None
+                G = plan['limits'][0]
+                run.map_budget = (run.counts['map'] + G + 6) if plan.get('map') else None
+                try:
+                    fin = ensembles.drive(s, peers, plan, run, mode, G + 4, snaps)
+                except env.SimHang:
+                    break
+                except (ValueError, TypeError) as e:
+                    run.probe('c01.ensemble_raised.%s' % type(e).__name__); continue
+                finally:
+                    run.map_budget = None
+                ok = True
+                for i, sn in enumerate(snaps or []):
+                    steps += 1
+                    if check(sn, sn['_nevals'], 'after ensemble Step %d' % (i + 1), mode) is False: ok = False; break
+                if ok: check(fin, len(run.evals), 'at the end of the %s run' % mode, mode)
+                run.probe('c01.members_checked', len(s._allSolvers))
+    finally:
+        run.fs.cleanup()
+        env.end()
+    tr = repr(canon(run.trace)) + repr(len(run.evals)) + repr(steps)
+    return {'violations': V, 'digest': hashlib.sha1(tr.encode()).hexdigest(), 'probes': run.probes, 'fired': run.fired, 'sim_s': 0.0,
+            'nontrivial': len(run.evals) > 2, 'stats': {'cost_calls': len(run.evals), 'steps': steps, 'ops': 0, 'seam_crossings': run.ncross}}
